@@ -11,7 +11,9 @@
 #include "ref_unicode.h"
 #include "gen_text.h"
 #include "gen_scale.h"
+#include "ambient.h"
 #include <sstream>
+#include <optional>
 
 using vrt::Rng;
 using vrt::sfmt;
@@ -710,8 +712,609 @@ static void failure_case(uint64_t i, Rng &r)
 
 } // namespace sc
 
+// ================================================================ sequences around a failure
+// On ONE target (stream / string): a successful operation with argument X, a failing operation with an ill-formed argument Y (at
+// another address, or written over X in place), then the first operation again with the very same X (same address, same
+// content): the failing call must leave the target alone AND the call after it must give what the model says.  Between them also
+// a successful call with other well-formed text Z of the same size, first and last 16 units at X's address.
+namespace seq {
+
+template <typename T> struct Family;
+template <> struct Family<char> { static const char *name() { return "char"; } static const sc::Enc enc = sc::E8; };
+template <> struct Family<char16_t> { static const char *name() { return "char16_t"; } static const sc::Enc enc = sc::E16; };
+template <> struct Family<char32_t> { static const char *name() { return "char32_t"; } static const sc::Enc enc = sc::E32; };
+template <> struct Family<wchar_t> { static const char *name() { return "wchar_t"; } static const sc::Enc enc = sc::E32; };
+
+// the UTF-8 form of well-formed text (reference transcoder)
+template <typename T>
+static S utf8_of(const std::basic_string<T> &t)
+{
+    if constexpr (sizeof(T) == 1) return S(t.begin(), t.end());
+    else {
+        ref::Decoded d;
+        if constexpr (sizeof(T) == 2) { std::u16string u(t.begin(), t.end()); d = ref::decode_utf16(u.data(), u.size()); }
+        else { std::u32string u(t.begin(), t.end()); d = ref::decode_utf32(u.data(), u.size()); }
+        S out;
+        ref::to_utf8(d, false, out);
+        return out;
+    }
+}
+template <typename T>
+static bool ill_formed(const std::basic_string<T> &t)
+{
+    if constexpr (sizeof(T) == 1) return ref::has_bad(ref::decode_utf8(S(t.begin(), t.end())));
+    else if constexpr (sizeof(T) == 2) { std::u16string u(t.begin(), t.end()); return ref::has_bad(ref::decode_utf16(u.data(), u.size())); }
+    else { std::u32string u(t.begin(), t.end()); return ref::has_bad(ref::decode_utf32(u.data(), u.size())); }
+}
+
+// three texts of n units: X and Z well-formed (same first and last 16 units when n >= 40, different in between), Y = X with one
+// unit replaced so that it is ill-formed (the unit lies in an island of three ASCII units, so that its neighbours cannot complete it)
+template <typename T>
+struct Texts {
+    std::basic_string<T> X, Y, Z;
+    size_t damage = 0;
+};
+template <typename T>
+static Texts<T> make_texts(Rng &r, size_t n)
+{
+    typedef std::basic_string<T> Str;
+    const sc::Enc e = Family<T>::enc;
+    Texts<T> t;
+    auto ascii = [&](Str &o, size_t k) { while (k-- > 0) o += static_cast<T>('a' + r.below(26)); };
+    auto body = [&](Str &o, size_t k, size_t &island) {          // k units with an island of three ASCII units somewhere
+        if (k < 3) { island = o.size() + (k ? r.below(k) : 0); ascii(o, k); return; }
+        const size_t a = r.chance(1, 4) ? 0 : r.chance(1, 3) ? k - 3 : r.below(k - 2);
+        sc::fill_units(r, o, e, a, static_cast<unsigned>(r.below(sc::N_BG)), r.chance(1, 2));
+        island = o.size() + 1;
+        ascii(o, 3);
+        sc::fill_units(r, o, e, k - 3 - a, static_cast<unsigned>(r.below(sc::N_BG)), r.chance(1, 2));
+    };
+    size_t ix = 0, iz = 0;
+    if (n >= 40) {
+        Str head, tail;
+        ascii(head, 16);
+        ascii(tail, 16);
+        t.X = head; body(t.X, n - 32, ix); t.X += tail;
+        t.Z = head; body(t.Z, n - 32, iz); t.Z += tail;
+    } else { body(t.X, n, ix); body(t.Z, n, iz); }
+    if (t.Z == t.X && n) t.Z[iz < n ? iz : 0] = static_cast<T>(t.X[iz < n ? iz : 0] == T('q') ? 'r' : 'q');
+    t.Y = t.X;
+    t.damage = ix < n ? ix : 0;
+    T bad;
+    if constexpr (sizeof(T) == 1) { static const unsigned char b[] = {0xFF, 0x80, 0xC3, 0xE2, 0xF0, 0xBF, 0xF8}; bad = static_cast<T>(r.pick(b)); }
+    else if constexpr (sizeof(T) == 2) bad = static_cast<T>(r.chance(1, 2) ? 0xD800 + r.below(0x400) : 0xDC00 + r.below(0x400));
+    else { static const uint32_t b[] = {0x110000, 0x7FFFFFFF, 0xFFFFFFFFu, 0x200000, 0x80000000u}; bad = static_cast<T>(r.pick(b)); }
+    if (n) t.Y[t.damage] = bad;
+    return t;
+}
+
+// caller-side storage that stays where it is for the whole sequence: a NUL-terminated array in an exact-size block and an STL string
+template <typename T>
+struct Storage {
+    vrt::Exact<T> arr;
+    std::basic_string<T> stl;
+    const T *stl_data;
+    explicit Storage(const std::basic_string<T> &v) : arr(v.data(), v.size(), true), stl(v), stl_data(stl.data()) { }
+    void write(const std::basic_string<T> &v)            // same number of units, in place
+    {
+        for (size_t i = 0; i < v.size(); ++i) { arr.p[i] = v[i]; stl[i] = v[i]; }
+        if (stl.data() != stl_data) fail("harness-self-check", "an STL string moved when it was overwritten in place");
+    }
+    const T *ptr() const { return arr.data(); }
+    size_t n() const { return arr.size(); }
+};
+
+static std::string g_family, g_form;
+static void set_op(const char *step) { g_op = sfmt("sequence:%s:%s:%s", g_family.c_str(), g_form.c_str(), step); }
+
+// ---- string_stream targets
+static const char *const STREAM_FORM[] = {"stream<<pointer", "stream<<STL string", "stream<<STL view"};
+template <typename T>
+static void stream_insert(ST::string_stream &ss, unsigned form, const T *ptr, size_t n, const std::basic_string<T> &stl)
+{
+    va::LibScope ls;
+    switch (form) {
+    case 0: ss << ptr; break;
+    case 1: ss << stl; break;
+    default: ss << std::basic_string_view<T>(ptr, n); break;
+    }
+}
+
+template <typename T>
+static void stream_sequence(Rng &r, unsigned form, size_t n, size_t fill)
+{
+    typedef std::basic_string<T> Str;
+    g_family = Family<T>::name();
+    g_form = STREAM_FORM[form];
+    const Texts<T> tx = make_texts<T>(r, n);
+    if (!ill_formed(tx.Y) || ill_formed(tx.X) || ill_formed(tx.Z)) { vrt::count("sequence.skipped"); return; }
+    const S X8 = utf8_of(tx.X), Z8 = utf8_of(tx.Z);
+    Storage<T> st(tx.X);
+    g_ctx = sfmt("stream holding %zu bytes, text of %zu units (%zu UTF-8 bytes) at one address, ill-formed unit at %zu", fill, n, X8.size(), tx.damage);
+    S model = gen::any_bytes(r, fill);
+    std::optional<vrt::Box<ST::string_stream>> ss;
+    ss.emplace();
+    { va::LibScope ls; (*ss)->append(model.data(), model.size()); }
+    auto good = [&](const char *step, const S &adds, const char *key) {
+        set_op(step);
+        vrt::cur_rewind();
+        vrt::cur_printf("op=%s %s\n", g_op.c_str(), g_ctx.c_str());
+        try { stream_insert<T>(**ss, form, st.ptr(), st.n(), st.stl); }
+        catch (const ST::unicode_error &e) { fail("well-formed-text-rejected", e.what()); return; }
+        model += adds;
+        vrt::evals();
+        const S now((*ss)->raw_buffer(), (*ss)->size());
+        if (now != model) fail(key, sfmt("the stream holds %zu bytes, the model %zu; first difference at byte %zu (the text starts at %zu): got %s", now.size(), model.size(), scale::first_diff(now, model), model.size() - adds.size(),
+                                         scale::brief(now, scale::first_diff(now, model)).c_str()));
+        vrt::count("sequence.successful_calls");
+    };
+    good("first call", X8, "first-result-differs");
+    const unsigned rounds = 1 + static_cast<unsigned>(r.below(3));
+    for (unsigned round = 0; round < rounds; ++round) {
+        // the failing call
+        const unsigned where = static_cast<unsigned>(r.below(3));        // 0: in place, 1: a copy of it elsewhere, 2: other ill-formed text elsewhere
+        set_op(where == 0 ? "failing call, argument written over X" : "failing call, argument elsewhere");
+        {
+            Watch w;
+            w.stream("target-stream", &**ss);
+            if (where == 0) {
+                st.write(tx.Y);
+                must_throw(UNICODE, w, [&] { stream_insert<T>(**ss, form, st.ptr(), st.n(), st.stl); });
+                st.write(tx.X);
+                vrt::count("sequence.failing_argument_at_the_same_address");
+            } else {
+                Str other = tx.Y;
+                if (where == 2) {
+                    const size_t alen = 1 + r.below(r.chance(1, 2) ? 20 : 400);
+                    if constexpr (sizeof(T) == 2) { const std::u16string b = bad16(r, alen, static_cast<int>(r.below(3))); other.assign(b.begin(), b.end()); }
+                    else { const std::u32string b = bad32(r, alen, static_cast<int>(r.below(3))); other.assign(b.begin(), b.end()); }
+                }
+                vrt::Exact<T> oarr(other.data(), other.size(), true);
+                must_throw(UNICODE, w, [&] { stream_insert<T>(**ss, form, oarr.data(), other.size(), other); });
+                vrt::count("sequence.failing_argument_at_another_address");
+            }
+        }
+        // other well-formed text at X's address
+        if (r.chance(1, 3)) {
+            st.write(tx.Z);
+            good("other text of the same size at the same address", Z8, "result-for-rewritten-storage-differs");
+            st.write(tx.X);
+            vrt::count("sequence.other_text_at_the_same_address");
+        }
+        // a fresh stream at the address of the old one (its first call is the one after the failure)
+        if (r.chance(1, 5)) {
+            vrt::placement_force_parks() = 4;
+            ss.reset();
+            ss.emplace();
+            vrt::placement_force_parks() = 0;
+            { va::LibScope ls; (*ss)->append(model.data(), model.size()); }
+            vrt::count("sequence.target_rebuilt");
+        }
+        good("first call again after the failure", X8, "result-after-failed-call-differs");
+        vrt::count("sequence.first_call_repeated_after_a_failure");
+    }
+    vrt::count("sequence.stream_sequences");
+    vrt::count(sfmt("sequence.%s.%s", g_family.c_str(), g_form.c_str()));
+}
+
+// ---- ST::string targets
+static const char *const STRING_FORM[] = {"string=pointer", "string.set(pointer)", "string.set(pointer,n)", "string+=pointer", "string=STL string", "string.set(STL string)", "string=STL view", "string.set(STL view)",
+                                          "string+pointer", "pointer+string", "string=string(pointer,n)", "from_utf*(pointer,n)", "from_std_string(STL string)"};
+enum { N_STRING_FORMS = 13 };
+// returns true when the form yields a separate result (in `res`) and leaves the target alone
+template <typename T>
+static bool string_apply(ST::string &t, unsigned form, const T *ptr, size_t n, const std::basic_string<T> &stl, S &res)
+{
+    va::LibScope ls;
+    switch (form) {
+    case 0: t = ptr; return false;
+    case 1: t.set(ptr); return false;
+    case 2: t.set(ptr, n); return false;
+    case 3: t += ptr; return false;
+    case 4: t = stl; return false;
+    case 5: t.set(stl); return false;
+    case 6: t = std::basic_string_view<T>(ptr, n); return false;
+    case 7: t.set(std::basic_string_view<T>(ptr, n)); return false;
+    case 8: { ST::string x = t + ptr; va::HarnessScope hs; res = vrt::str_of(x); return true; }
+    case 9: { ST::string x = ptr + t; va::HarnessScope hs; res = vrt::str_of(x); return true; }
+    case 10: t = ST::string(ptr, n); return false;
+    case 11: {
+        ST::string x;
+        if constexpr (std::is_same<T, char>::value) x = ST::string::from_utf8(ptr, n);
+        else if constexpr (std::is_same<T, char16_t>::value) x = ST::string::from_utf16(ptr, n);
+        else if constexpr (std::is_same<T, char32_t>::value) x = ST::string::from_utf32(ptr, n);
+        else x = ST::string::from_wchar(ptr, n);
+        va::HarnessScope hs;
+        res = vrt::str_of(x);
+        return true;
+    }
+    default: { ST::string x = ST::string::from_std_string(stl); va::HarnessScope hs; res = vrt::str_of(x); return true; }
+    }
+}
+
+template <typename T>
+static void string_sequence(Rng &r, unsigned form, size_t n, size_t tlen)
+{
+    typedef std::basic_string<T> Str;
+    g_family = Family<T>::name();
+    g_form = STRING_FORM[form];
+    const Texts<T> tx = make_texts<T>(r, n);
+    if (!ill_formed(tx.Y) || ill_formed(tx.X) || ill_formed(tx.Z)) { vrt::count("sequence.skipped"); return; }
+    const S X8 = utf8_of(tx.X), Z8 = utf8_of(tx.Z);
+    Storage<T> st(tx.X);
+    const S tv = valid8(r, tlen);
+    g_ctx = sfmt("string of %zu bytes, text of %zu units (%zu UTF-8 bytes) at one address, ill-formed unit at %zu", tlen, n, X8.size(), tx.damage);
+    std::optional<vrt::Box<ST::string>> t;
+    t.emplace(vrt::mk(tv));
+    S model = tv;
+    auto good = [&](const char *step, const S &a8, const char *key) {
+        set_op(step);
+        vrt::cur_rewind();
+        vrt::cur_printf("op=%s %s\n", g_op.c_str(), g_ctx.c_str());
+        S res;
+        bool separate = false;
+        try { separate = string_apply<T>(**t, form, st.ptr(), st.n(), st.stl, res); }
+        catch (const ST::unicode_error &e) { fail("well-formed-text-rejected", e.what()); return; }
+        vrt::evals();
+        S want_res;
+        switch (form) {
+        case 3: model += a8; break;
+        case 8: want_res = model + a8; break;
+        case 9: want_res = a8 + model; break;
+        case 11: case 12: want_res = a8; break;
+        default: model = a8; break;
+        }
+        const S now = vrt::str_of(**t);
+        if (now != model) fail(key, sfmt("the target holds %zu bytes %s, the model %zu bytes %s; first difference at byte %zu", now.size(), show(now).c_str(), model.size(), show(model).c_str(), scale::first_diff(now, model)));
+        if ((**t).c_str()[now.size()] != 0) fail("target-no-terminator", step);
+        if (separate && res != want_res) fail(key, sfmt("the result holds %zu bytes %s, the model %zu bytes %s; first difference at byte %zu", res.size(), show(res).c_str(), want_res.size(), show(want_res).c_str(), scale::first_diff(res, want_res)));
+        vrt::count("sequence.successful_calls");
+    };
+    good("first call", X8, "first-result-differs");
+    const unsigned rounds = 1 + static_cast<unsigned>(r.below(3));
+    for (unsigned round = 0; round < rounds; ++round) {
+        const unsigned where = static_cast<unsigned>(r.below(3));
+        set_op(where == 0 ? "failing call, argument written over X" : "failing call, argument elsewhere");
+        {
+            Watch w;
+            w.str("target", &**t);
+            S res;
+            if (where == 0) {
+                st.write(tx.Y);
+                must_throw(UNICODE, w, [&] { string_apply<T>(**t, form, st.ptr(), st.n(), st.stl, res); });
+                st.write(tx.X);
+                vrt::count("sequence.failing_argument_at_the_same_address");
+            } else {
+                Str other = tx.Y;
+                if (where == 2) {
+                    const size_t alen = 1 + r.below(r.chance(1, 2) ? 20 : 400);
+                    const int wh = static_cast<int>(r.below(3));
+                    if constexpr (sizeof(T) == 1) { S b = bad8(r, alen, wh); for (char &c : b) if (!c) c = 'n'; if (ref::utf8_ok(b)) b += "\xFF"; other = b; }
+                    else if constexpr (sizeof(T) == 2) { const std::u16string b = bad16(r, alen, wh); other.assign(b.begin(), b.end()); }
+                    else { const std::u32string b = bad32(r, alen, wh); other.assign(b.begin(), b.end()); }
+                }
+                vrt::Exact<T> oarr(other.data(), other.size(), true);
+                w.stl("argument", &other);
+                must_throw(UNICODE, w, [&] { string_apply<T>(**t, form, oarr.data(), other.size(), other, res); });
+                vrt::count("sequence.failing_argument_at_another_address");
+            }
+        }
+        if (r.chance(1, 3)) {
+            st.write(tx.Z);
+            good("other text of the same size at the same address", Z8, "result-for-rewritten-storage-differs");
+            st.write(tx.X);
+            vrt::count("sequence.other_text_at_the_same_address");
+        }
+        switch (r.below(5)) {
+        case 0: {       // a fresh string at the address of the old one
+            vrt::placement_force_parks() = 4;
+            t.reset();
+            t.emplace(vrt::mk(tv));
+            vrt::placement_force_parks() = 0;
+            model = tv;
+            vrt::count("sequence.target_rebuilt");
+            break;
+        }
+        case 1: { va::LibScope ls; **t = vrt::mk(tv); model = tv; break; }
+        default: break;
+        }
+        good("first call again after the failure", X8, "result-after-failed-call-differs");
+        vrt::count("sequence.first_call_repeated_after_a_failure");
+    }
+    vrt::count("sequence.string_sequences");
+    vrt::count(sfmt("sequence.%s.%s", g_family.c_str(), g_form.c_str()));
+}
+
+// ---- the same pattern for the other throwing families: hex / base64 text in an ST::string that is destroyed and rebuilt at the same
+// address (object and heap block) between the calls, a format string in caller-side storage rewritten in place
+static S hex_of(const S &bytes, Rng &r)
+{
+    const char *d = r.chance(1, 2) ? "0123456789abcdef" : "0123456789ABCDEF";
+    S o;
+    for (unsigned char c : bytes) { o += d[c >> 4]; o += d[c & 15]; }
+    return o;
+}
+static S b64_of(const S &bytes)
+{
+    static const char a[] = "ABCDEFGHIJKLMNOPQRSTUVWXYZabcdefghijklmnopqrstuvwxyz0123456789+/";
+    S o;
+    size_t i = 0;
+    for (; i + 3 <= bytes.size(); i += 3) {
+        const unsigned v = (static_cast<unsigned char>(bytes[i]) << 16) | (static_cast<unsigned char>(bytes[i + 1]) << 8) | static_cast<unsigned char>(bytes[i + 2]);
+        o += a[v >> 18]; o += a[(v >> 12) & 63]; o += a[(v >> 6) & 63]; o += a[v & 63];
+    }
+    if (bytes.size() - i == 1) { const unsigned v = static_cast<unsigned char>(bytes[i]) << 16; o += a[v >> 18]; o += a[(v >> 12) & 63]; o += "=="; }
+    else if (bytes.size() - i == 2) { const unsigned v = (static_cast<unsigned char>(bytes[i]) << 16) | (static_cast<unsigned char>(bytes[i + 1]) << 8); o += a[v >> 18]; o += a[(v >> 12) & 63]; o += a[(v >> 6) & 63]; o += '='; }
+    return o;
+}
+
+static void codec_sequence(Rng &r, bool b64, size_t n)
+{
+    g_family = b64 ? "base64" : "hex";
+    g_form = b64 ? "base64_decode(string)" : "hex_decode(string)";
+    // X and Z: encodings of byte strings that share their first and last 16 bytes; Y: X with one character in the middle made invalid
+    S bx = gen::any_bytes(r, n), bz = bx;
+    if (n >= 40) for (size_t k = 16; k < n - 16; ++k) bz[k] = static_cast<char>(r.below(256));
+    else bz = gen::any_bytes(r, n);
+    const S X = b64 ? b64_of(bx) : hex_of(bx, r), Z = b64 ? b64_of(bz) : hex_of(bz, r);
+    S Y = X;
+    const size_t pad = b64 ? 4 : 0;
+    const size_t at = Y.size() > pad ? (Y.size() - pad) / 2 : 0;
+    Y[at] = b64 ? "*-_ \x80"[r.below(5)] : "gG xz:\x80"[r.below(7)];
+    g_ctx = sfmt("text of %zu characters for %zu bytes, invalid character at %zu", X.size(), n, at);
+    std::optional<vrt::Box<ST::string>> arg;
+    const void *first_obj = nullptr, *first_data = nullptr;
+    auto put = [&](const S &text) {       // the argument string is destroyed and its successor built at once: same size, so the same addresses when the blocks are parked
+        vrt::placement_force_parks() = 4;
+        arg.reset();
+        arg.emplace(vrt::mk(text));
+        vrt::placement_force_parks() = 0;
+        if (!first_obj) { first_obj = arg->p; first_data = (**arg).c_str(); }
+        else {
+            vrt::count("sequence.codec_arguments_rebuilt");
+            if (arg->p == first_obj && (text.size() < 16 || (**arg).c_str() == first_data)) vrt::count("sequence.codec_argument_at_the_address_of_its_predecessor");
+        }
+    };
+    auto good = [&](const char *step, const S &want, const char *key) {
+        set_op(step);
+        vrt::cur_rewind();
+        vrt::cur_printf("op=%s %s\n", g_op.c_str(), g_ctx.c_str());
+        S got;
+        try { va::LibScope ls; ST::char_buffer out = b64 ? ST::base64_decode(**arg) : ST::hex_decode(**arg); va::HarnessScope hs; got.assign(out.data(), out.size()); }
+        catch (const ST::codec_error &e) { fail("valid-text-rejected", e.what()); return; }
+        vrt::evals();
+        if (got != want) fail(key, sfmt("decoded %zu bytes %s, the model %zu bytes %s; first difference at byte %zu", got.size(), show(got).c_str(), want.size(), show(want).c_str(), scale::first_diff(got, want)));
+        vrt::count("sequence.successful_calls");
+    };
+    put(X);
+    good("first call", bx, "first-result-differs");
+    for (unsigned round = 1 + static_cast<unsigned>(r.below(2)); round-- > 0;) {
+        const bool same = r.chance(2, 3);
+        set_op(same ? "failing call, argument at the address of X" : "failing call, argument elsewhere");
+        if (same) {
+            put(Y);
+            Watch w;
+            w.str("argument", &**arg);
+            must_throw(CODEC, w, [&] { auto x = b64 ? ST::base64_decode(**arg) : ST::hex_decode(**arg); (void)x; });
+            if (r.chance(1, 2)) { put(Z); good("other text of the same size at the same address", bz, "result-for-rewritten-storage-differs"); vrt::count("sequence.other_text_at_the_same_address"); }
+            put(X);
+            vrt::count("sequence.failing_argument_at_the_same_address");
+        } else {
+            vrt::Box<ST::string> other(vrt::mk(r.chance(1, 2) ? Y : Y.substr(0, Y.size() - 1)));
+            Watch w;
+            w.str("argument", &*other);
+            must_throw(CODEC, w, [&] { auto x = b64 ? ST::base64_decode(*other) : ST::hex_decode(*other); (void)x; });
+            vrt::count("sequence.failing_argument_at_another_address");
+        }
+        good("first call again after the failure", bx, "result-after-failed-call-differs");
+        vrt::count("sequence.first_call_repeated_after_a_failure");
+    }
+    vrt::count("sequence.codec_sequences");
+}
+
+static void format_sequence(Rng &r, size_t n)
+{
+    g_family = "format";
+    g_form = "format(const char*, string, int)";
+    // "<head 16><middle>{}<literal>{}" / the same with other literal text / the same ending in an unterminated field
+    auto lit = [&](size_t k) { S o; while (k-- > 0) o += static_cast<char>("abcdefghijklmnopqrstuvwxyz0123456789 .,:;-_=+*"[r.below(46)]); return o; };
+    const S head = lit(16), tail = lit(r.below(20));
+    const S X = head + lit(n) + "{}" + tail + "{}", Z = head + lit(n) + "{}" + tail + "{}";
+    S Y = X;
+    Y[Y.size() - 1] = "_.&5"[r.below(4)];
+    const S tv = valid8(r, r.chance(1, 2) ? r.below(20) : 40 + r.below(300));
+    vrt::Exact<char> fmt(X.data(), X.size(), true);
+    auto write = [&](const S &v) { memcpy(fmt.p, v.data(), v.size()); };
+    g_ctx = sfmt("format string of %zu bytes at one address, argument string of %zu bytes", X.size(), tv.size());
+    vrt::Box<ST::string> t(vrt::mk(tv));
+    auto good = [&](const char *step, const S &f, const char *key) {
+        set_op(step);
+        vrt::cur_rewind();
+        vrt::cur_printf("op=%s %s\n", g_op.c_str(), g_ctx.c_str());
+        S got;
+        try { va::LibScope ls; ST::string x = ST::format(fmt.data(), *t, 42); va::HarnessScope hs; got = vrt::str_of(x); }
+        catch (const ST::bad_format &e) { fail("valid-format-rejected", e.what()); return; }
+        vrt::evals();
+        const size_t f1 = f.find("{}");
+        const S want = f.substr(0, f1) + tv + f.substr(f1 + 2, f.size() - f1 - 4) + "42";
+        if (got != want) fail(key, sfmt("formatted %zu bytes %s, the model %zu bytes %s; first difference at byte %zu", got.size(), show(got).c_str(), want.size(), show(want).c_str(), scale::first_diff(got, want)));
+        if (vrt::str_of(*t) != tv) fail("argument-changed", step);
+        vrt::count("sequence.successful_calls");
+    };
+    good("first call", X, "first-result-differs");
+    for (unsigned round = 1 + static_cast<unsigned>(r.below(2)); round-- > 0;) {
+        const bool same = r.chance(2, 3);
+        set_op(same ? "failing call, argument written over X" : "failing call, argument elsewhere");
+        Watch w;
+        w.str("argument", &*t);
+        if (same) {
+            write(Y);
+            must_throw(BADFMT, w, [&] { ST::string x = ST::format(fmt.data(), *t, 42); (void)x; });
+            if (r.chance(1, 2)) { write(Z); good("other text of the same size at the same address", Z, "result-for-rewritten-storage-differs"); vrt::count("sequence.other_text_at_the_same_address"); }
+            write(X);
+            vrt::count("sequence.failing_argument_at_the_same_address");
+        } else {
+            const S bf = lit(r.below(30)) + r.pick(BADFMTS);
+            vrt::Exact<char> other(bf.data(), bf.size(), true);
+            must_throw(BADFMT, w, [&] { ST::string x = ST::format(other.data(), *t, 42); (void)x; });
+            vrt::count("sequence.failing_argument_at_another_address");
+        }
+        good("first call again after the failure", X, "result-after-failed-call-differs");
+        vrt::count("sequence.first_call_repeated_after_a_failure");
+    }
+    vrt::count("sequence.format_sequences");
+}
+
+static const size_t SEQ_LENS[] = {1, 3, 8, 15, 16, 17, 40, 64, 100, 255, 256, 257, 300, 1000, 5000};
+static void sequence_case(uint64_t i, Rng &r)
+{
+    // grid: (family x form) x text length; 4 families of 13 string forms, 3 wide families of 3 stream forms, hex / base64 / format
+    const unsigned NCOMBO = 4 * N_STRING_FORMS + 3 * 3 + 3;
+    const unsigned combo = static_cast<unsigned>(i % NCOMBO);
+    const size_t n = SEQ_LENS[(i / NCOMBO) % 15];
+    static const size_t TLENS[] = {0, 5, 15, 16, 17, 40, 300};
+    static const size_t FILLS[] = {0, 10, 200, 255, 256, 257, 600, 5000};
+    if (combo < 4 * N_STRING_FORMS) {
+        const unsigned form = combo % N_STRING_FORMS;
+        const size_t tlen = r.pick(TLENS);
+        switch (combo / N_STRING_FORMS) {
+        case 0: string_sequence<char>(r, form, n, tlen); break;
+        case 1: string_sequence<char16_t>(r, form, n, tlen); break;
+        case 2: string_sequence<char32_t>(r, form, n, tlen); break;
+        default: string_sequence<wchar_t>(r, form, n, tlen); break;
+        }
+    } else if (combo >= 4 * N_STRING_FORMS + 9) {
+        switch (combo - 4 * N_STRING_FORMS - 9) {
+        case 0: codec_sequence(r, false, n); break;
+        case 1: codec_sequence(r, true, n); break;
+        default: format_sequence(r, n); break;
+        }
+    } else {
+        const unsigned c2 = combo - 4 * N_STRING_FORMS, form = c2 % 3;
+        const size_t fill = r.pick(FILLS);
+        switch (c2 / 3) {
+        case 0: stream_sequence<char16_t>(r, form, n, fill); break;
+        case 1: stream_sequence<char32_t>(r, form, n, fill); break;
+        default: stream_sequence<wchar_t>(r, form, n, fill); break;
+        }
+    }
+    vrt::count("sequence.cases");
+    vrt::distinct(vrt::fnv_u64(i, vrt::fnv_str("sequences")));
+    if (vrt::want_sample("sequences", 4)) vrt::sample("sequences", sfmt("%s %s: %s | X, [Y fails, (Z), X again] x 1..3", g_family.c_str(), g_form.c_str(), g_ctx.c_str()), 4);
+}
+
+// ---- sources that are sub-ranges of the target's own buffer and are ill-formed (they start or end inside a multi-byte character)
+static const char *const OWN_FORM[] = {"string.set(ptr)", "string.set(ptr,n)", "string.set(ptr,n,check_validity)", "string=ptr", "string+=ptr", "string=char8_t ptr", "string.set(char8_t ptr,n)", "string=string_view",
+                                       "string.set(string_view)", "string.set(u8string_view)", "string=from_utf8(ptr,n)", "string=string(ptr,n)", "string+ptr", "string+=char8_t ptr"};
+enum { N_OWN_FORMS = 14 };
+static bool own_form_sized(unsigned f) { return f == 1 || f == 2 || f == 6 || f == 7 || f == 8 || f == 9 || f == 10 || f == 11; }
+static void own_apply(ST::string &t, unsigned form, size_t k, size_t n)
+{
+    const char *p = t.c_str() + k;
+    const char8_t *p8 = reinterpret_cast<const char8_t *>(p);
+    switch (form) {
+    case 0: t.set(p); break;
+    case 1: t.set(p, n); break;
+    case 2: t.set(p, n, ST::check_validity); break;
+    case 3: t = p; break;
+    case 4: t += p; break;
+    case 5: t = p8; break;
+    case 6: t.set(p8, n); break;
+    case 7: t = std::string_view(p, n); break;
+    case 8: t.set(std::string_view(p, n)); break;
+    case 9: t.set(std::u8string_view(p8, n)); break;
+    case 10: t = ST::string::from_utf8(p, n); break;
+    case 11: t = ST::string(p, n); break;
+    case 12: { ST::string x = t + p; (void)x; break; }
+    default: t += p8; break;
+    }
+}
+// what a successful call of that form leaves in the target
+static S own_model(const S &tv, unsigned form, size_t k, size_t n)
+{
+    const S piece = tv.substr(k, n);
+    if (form == 4 || form == 13) return tv + piece;
+    if (form == 12) return tv;
+    return piece;
+}
+
+static void own_range_case(uint64_t i, Rng &r)
+{
+    static const size_t LENS[] = {5, 12, 15, 16, 17, 24, 40, 100, 300, 1000, 5000, 70000};
+    const size_t tlen = LENS[i % 12];
+    // text with multi-byte characters at the beginning, in the middle and at the end
+    S tv;
+    static const char32_t mb[] = {0xE9, 0x7FF, 0x20AC, 0xFFFD, 0x1F600, 0x10FFFF};
+    const bool mb_first = r.chance(1, 2), mb_last = r.chance(2, 3);
+    if (mb_first) ref::enc_utf8(tv, r.pick(mb));
+    while (tv.size() + 4 < tlen) { if (r.chance(1, tlen > 1000 ? 12 : 3)) ref::enc_utf8(tv, r.pick(mb)); else tv += static_cast<char>('a' + r.below(26)); }
+    if (mb_last || tv.find_first_of("\xC3\xDF\xE2\xEF\xF0\xF4") == S::npos) ref::enc_utf8(tv, r.pick(mb));
+    while (tv.size() < tlen) tv += static_cast<char>('a' + r.below(26));
+    std::vector<size_t> inside, bounds;      // offsets inside a character / at the start of one (not 0)
+    for (size_t k = 1; k < tv.size(); ++k) ((static_cast<unsigned char>(tv[k]) & 0xC0) == 0x80 ? inside : bounds).push_back(k);
+    if (inside.empty()) { vrt::count("own_range.skipped"); return; }
+    const bool share = r.chance(1, 2);
+    g_ctx = sfmt("target of %zu bytes%s", tv.size(), share ? " whose buffer is shared with a copy" : "");
+    auto failing = [&](unsigned form, size_t k, size_t n, const char *kind) {
+        g_op = sfmt("own-buffer:%s:%s", kind, OWN_FORM[form]);
+        const std::string saved_ctx = g_ctx;
+        g_ctx += sfmt(", source = bytes [%zu, %zu) of the target itself", k, k + n);
+        vrt::Box<ST::string> t(vrt::mk(tv));
+        std::optional<ST::string> copy;
+        if (share) copy.emplace(*t);
+        Watch w;
+        w.str("target", &*t);
+        if (copy) w.str("copy-sharing-the-buffer", &*copy);
+        if (must_throw(UNICODE, w, [&] { own_apply(*t, form, k, n); })) {
+            vrt::count("own_range.failing_calls");
+            // used again: a well-formed range of its own buffer (same form), then from outside
+            if (!bounds.empty()) {
+                size_t kb = r.pick(bounds), nb = tv.size() - kb;
+                if (own_form_sized(form) && r.chance(1, 2)) { const size_t e2 = r.pick(bounds); if (e2 > kb) nb = e2 - kb; }
+                const S want = own_model(tv, form, kb, nb);
+                try { va::LibScope ls; own_apply(*t, form, kb, nb); }
+                catch (const ST::unicode_error &e) { fail("well-formed-own-range-rejected", e.what()); }
+                vrt::evals();
+                const S now = vrt::str_of(*t);
+                if (now != want) fail("result-after-failed-call-differs", sfmt("after the failure the same call with bytes [%zu, %zu) of the target gave %zu bytes %s, the model %zu bytes %s", kb, kb + nb, now.size(), show(now).c_str(), want.size(), show(want).c_str()));
+                vrt::count("own_range.successful_calls_after_the_failure");
+                { va::LibScope ls; *t = vrt::mk(tv); }
+            }
+            reuse(t, tv);
+        }
+        g_ctx = saved_ctx;
+    };
+    for (unsigned form = 0; form < N_OWN_FORMS; ++form) {
+        // tails that start inside a character: the first such offset, the last one (a tail of continuation bytes only), a random one
+        const size_t ks[] = {inside.front(), inside.back(), r.pick(inside)};
+        for (unsigned j = 0; j < 3; ++j) {
+            if (j == 2 && tv.size() > 2000 && !r.chance(1, 4)) continue;
+            if (j && ks[j] == ks[0]) continue;
+            failing(form, ks[j], tv.size() - ks[j], "tail");
+            vrt::count("own_range.tails_starting_inside_a_character");
+        }
+        if (own_form_sized(form)) {
+            // ranges that do not reach the end: starting inside a character, or ending inside one
+            const size_t k = r.pick(inside);
+            if (k + 1 < tv.size()) { failing(form, k, 1 + r.below(tv.size() - k - 1), "inner range"); vrt::count("own_range.ranges_starting_inside_a_character"); }
+            const size_t e = r.pick(inside);              // ends right before a continuation byte
+            const size_t k0 = r.chance(1, 3) ? 0 : r.below(e);
+            size_t kk = k0;
+            while (kk > 0 && (static_cast<unsigned char>(tv[kk]) & 0xC0) == 0x80) --kk;
+            if (e > kk) { failing(form, kk, e - kk, "range cut inside a character"); vrt::count("own_range.ranges_ending_inside_a_character"); }
+        }
+    }
+    vrt::count("own_range.cases");
+    if (tv.size() > 15) vrt::count("own_range.targets_on_the_heap");
+    vrt::distinct(vrt::fnv1a(tv.data(), tv.size(), vrt::fnv_u64(i, 163)));
+    if (vrt::want_sample("own_range")) vrt::sample("own_range", sfmt("%s: %u forms of set / = / += with tails and inner ranges of its own buffer that start or end inside a multi-byte character", g_ctx.c_str(), static_cast<unsigned>(N_OWN_FORMS)));
+}
+
+} // namespace seq
+
 static void body()
 {
+    ambient::enable(3);
     vrt::require("scenarios", 15000);
     vrt::require("threw.ST::unicode_error", 8000);
     vrt::require("threw.ST::codec_error", 500);
@@ -744,6 +1347,34 @@ static void body()
     vrt::require("scale.stream_target>=1MiB", 1);
     vrt::require("scale.stream_argument>64Ki_units", 5);
     vrt::phase("scale", vrt::tier_count(2016, 40000), sc::failure_case);
+    // sequences around a failure; sources inside the target's own buffer
+    vrt::note("sequences phase: on one string_stream / ST::string a successful call with text X (const wchar_t* / char16_t* / char32_t* / char*, STL strings, views; =, set, +=, +, constructors, from_*), a failing "
+              "call with ill-formed Y (written over X in place, or elsewhere), optionally a successful call with other text Z of the same size, first and last 16 units at X's address, then the first call again "
+              "with the very same X: the target is unchanged by the failure and every successful result equals the model (the same for hex_decode / base64_decode with the argument string rebuilt at the same address "
+              "and for ST::format with the format string rewritten in place); own_range phase: set / = / += whose source is a tail or inner range of the target's own buffer "
+              "that starts or ends inside a multi-byte character: ST::unicode_error, target (and a copy sharing its buffer) unchanged, usable afterwards");
+    vrt::require("sequence.cases", 1000);
+    vrt::require("sequence.stream_sequences", 100);
+    vrt::require("sequence.string_sequences", 500);
+    vrt::require("sequence.first_call_repeated_after_a_failure", 1500);
+    vrt::require("sequence.failing_argument_at_the_same_address", 400);
+    vrt::require("sequence.failing_argument_at_another_address", 400);
+    vrt::require("sequence.other_text_at_the_same_address", 200);
+    vrt::require("sequence.target_rebuilt", 100);
+    for (const char *fam : {"wchar_t", "char16_t", "char32_t"}) for (const char *form : seq::STREAM_FORM) vrt::require(sfmt("sequence.%s.%s", fam, form), 10);
+    for (const char *fam : {"char", "wchar_t", "char16_t", "char32_t"}) for (const char *form : seq::STRING_FORM) vrt::require(sfmt("sequence.%s.%s", fam, form), 10);
+    vrt::require("sequence.codec_sequences", 60);
+    vrt::require("sequence.format_sequences", 30);
+    vrt::require("sequence.codec_argument_at_the_address_of_its_predecessor", 50);
+    vrt::phase("sequences", vrt::tier_count(64 * 15 * 3, 64 * 15 * 40), seq::sequence_case);
+    vrt::require("own_range.cases", 200);
+    vrt::require("own_range.failing_calls", 5000);
+    vrt::require("own_range.tails_starting_inside_a_character", 3000);
+    vrt::require("own_range.ranges_starting_inside_a_character", 1000);
+    vrt::require("own_range.ranges_ending_inside_a_character", 1000);
+    vrt::require("own_range.successful_calls_after_the_failure", 3000);
+    vrt::require("own_range.targets_on_the_heap", 100);
+    vrt::phase("own_range", vrt::tier_count(360, 7200), seq::own_range_case);
     va::check_pairing("failure");
 }
 
